@@ -7,6 +7,7 @@ import (
 	"os"
 
 	"github.com/bytemare/secp256k1/internal/verif/ev"
+	"github.com/bytemare/secp256k1/internal/verif/prelude"
 	"github.com/bytemare/secp256k1/internal/verif/sched"
 	"github.com/bytemare/secp256k1/internal/verif/tracechk"
 	"github.com/bytemare/secp256k1/internal/verif/verifrt"
@@ -30,6 +31,8 @@ func main() {
 		fmt.Fprintln(os.Stderr, "usage: vinstr <part> | replay <property> <file>")
 		os.Exit(2)
 	}
+
+	prelude.HostileCaller()
 
 	if os.Args[1] == "replay" {
 		b, err := os.ReadFile(os.Args[3])
